@@ -23,9 +23,12 @@ Act == CASE Ev.op = "accv" -> AccVector(Ev.i, Ev.v)
          [] Ev.op = "save" -> Save(Ev.i, P(Ev.p), Ev.key, Ev.ow)
          [] Ev.op = "load" -> Load(Ev.j, P(Ev.p), Ev.key)
          [] Ev.op = "template" -> Template(P(Ev.p), Ev.D, Ev.key)
-Obs == CASE Ev.op \in {"accv", "acct"} -> inst'[Ev.i] = St(Ev.stats)
-         [] Ev.op = "save" -> fs'[P(Ev.p)] = FileOf(Ev.file) /\ inst'[Ev.i] = St(Ev.stats)
-         [] Ev.op = "load" -> (Ev.err = "" => inst'[Ev.j] = St(Ev.stats))
+\* what an instance shows of its statistics through its public interface (have_stats, save): nothing while it has no data,
+\* whether it knows a dimension already (loaded from an all-zero template) or not
+Shown(x) == IF x # None /\ x.n = 0 THEN None ELSE x
+Obs == CASE Ev.op \in {"accv", "acct"} -> Shown(inst'[Ev.i]) = St(Ev.stats)
+         [] Ev.op = "save" -> fs'[P(Ev.p)] = FileOf(Ev.file) /\ Shown(inst'[Ev.i]) = St(Ev.stats)
+         [] Ev.op = "load" -> (Ev.err = "" => Shown(inst'[Ev.j]) = St(Ev.stats))
          [] Ev.op = "template" -> fs'[P(Ev.p)] = FileOf(Ev.file)
 StepErr == Act /\ err' # Ev.err
 StepObs == Act /\ err' = Ev.err /\ ~Obs
